@@ -62,7 +62,11 @@ func render(c func(string, string, bool) templ.Component, a argset, dev bool) (s
 	return b.String(), err
 }
 
-const ttl = 100 * time.Millisecond
+// settle is how long after the text file was written the running program is given before its
+// output must be that of a fresh build. The statement sets no time bound; the implementation
+// caches literals for 100 ms. The oracle does not mirror that constant: anything rendered sooner
+// than settle is only required to be *some* version the text file has held since the build.
+const settle = 2 * time.Second
 
 type world struct {
 	rc  *kernel.RunCtx
@@ -310,7 +314,7 @@ func (w *world) check(when string) {
 			rc.Fail("C16/dev-render-error", "%s %s: dev-mode render of compiled v%d with text of v%d failed: %v\n trace: %s", w.fam.Name, when, w.c, w.processed, err, strings.Join(w.trace, "\n  "))
 			return
 		}
-		if since >= ttl {
+		if since >= settle {
 			// ground truth is what the file holds (the handler has been told about every save)
 			target := w.processed
 			if w.fileVar >= 0 {
@@ -382,7 +386,7 @@ func (w *world) run() {
 		w.k.Count("probe_runs_through_watcher_loop", 1)
 		defer func() {
 			// let every armed coalescing timer fire and be drained, then stop the loop
-			time.Sleep(250 * time.Millisecond)
+			time.Sleep(settle + 500*time.Millisecond)
 			w.k.Quiesce()
 			w.cancel()
 			w.k.Quiesce()
@@ -391,13 +395,16 @@ func (w *world) run() {
 	w.newHandler()
 	w.fileVar = w.c
 	w.rebuild()
-	time.Sleep(ttl + time.Millisecond)
+	time.Sleep(settle + time.Millisecond)
 	w.k.Quiesce()
 	w.check("after initial build")
 	maxActions := t.Range(3, rc.Param("max_actions", 40), "max-actions")
-	wEdit, wWatch, wAdv, wRender, wRestartApp, wRestartW, wGarbage := t.Range(1, 6, "w-edit"), t.Range(1, 6, "w-watch"), t.Range(1, 4, "w-adv"), t.Range(1, 6, "w-render"), t.Range(0, 2, "w-rapp"), t.Range(0, 2, "w-rw"), t.Range(0, 1, "w-garbage")
+	wEdit, wWatch, wAdv, wRender, wRestartApp, wRestartW, wGarbage, wBurst := t.Range(1, 6, "w-edit"), t.Range(1, 6, "w-watch"), t.Range(1, 4, "w-adv"), t.Range(1, 6, "w-render"), t.Range(0, 2, "w-rapp"), t.Range(0, 2, "w-rw"), t.Range(0, 1, "w-garbage"), t.Range(0, 1, "w-burst")
 	for a := 0; a < maxActions && !rc.Failed(); a++ {
-		ws := []int{wEdit, 0, wAdv, wRender, wRestartApp, wRestartW, wGarbage}
+		ws := []int{wEdit, 0, wAdv, wRender, wRestartApp, wRestartW, wGarbage, 0}
+		if !w.pending {
+			ws[7] = wBurst
+		}
 		if (w.pending && !w.useLoop) || (w.useLoop && w.queued() > 0) {
 			ws[1] = wWatch
 		}
@@ -423,7 +430,7 @@ func (w *world) run() {
 				w.k.Count("edits_classified_text_only", 1)
 			}
 		case 2:
-			ds := []time.Duration{0, time.Millisecond, 50 * time.Millisecond, 99 * time.Millisecond, 101 * time.Millisecond, time.Second}
+			ds := []time.Duration{0, time.Millisecond, 50 * time.Millisecond, 99 * time.Millisecond, 101 * time.Millisecond, time.Second, settle, settle + time.Second}
 			d := ds[t.Choose(len(ds), "advance")]
 			w.note("advance %v", d)
 			time.Sleep(d)
@@ -449,6 +456,20 @@ func (w *world) run() {
 					w.rebuild()
 				}
 			}
+		case 7:
+			// a page that is reloaded again and again: renders arrive closer together than any
+			// cache lifetime, for longer than settle; the last one must be fresh
+			gap := []time.Duration{20 * time.Millisecond, 60 * time.Millisecond, 90 * time.Millisecond}[t.Choose(3, "burst-gap")]
+			w.note("render every %v for %v", gap, settle+200*time.Millisecond)
+			for e := time.Duration(0); e < settle+200*time.Millisecond && !rc.Failed(); e += gap {
+				time.Sleep(gap)
+				w.k.Quiesce()
+				if _, err := render(w.fam.Variants[w.c].Comp, argsets[0], true); err != nil {
+					rc.Fail("C16/dev-render-error", "%s: dev-mode render failed during a burst of renders: %v", w.fam.Name, err)
+				}
+			}
+			w.k.Count("probe_render_bursts", 1)
+			w.check("after a burst of renders")
 		case 6:
 			w.note("edit: file now holds unparseable text")
 			w.writeSource(-1, "package v\n\ntempl Page(x string, y string, on bool) {\n\t<div")
@@ -464,10 +485,10 @@ func (w *world) run() {
 	}
 	if w.useLoop && w.pending {
 		// liveness: once saves stop, the coalesced event for the last save reaches the handler
-		time.Sleep(150 * time.Millisecond)
+		time.Sleep(settle)
 		w.k.Quiesce()
 		if w.queued() == 0 {
-			rc.Fail("C16/edit-never-reaches-handler", "%s: 150 ms after the last save the watcher loop has delivered no event for it\n trace: %s", w.fam.Name, strings.Join(w.trace, "\n  "))
+			rc.Fail("C16/edit-never-reaches-handler", "%s: 2 s after the last save the watcher loop has delivered no event for it\n trace: %s", w.fam.Name, strings.Join(w.trace, "\n  "))
 			return
 		}
 	}
@@ -481,7 +502,7 @@ func (w *world) run() {
 			break
 		}
 	}
-	time.Sleep(ttl + time.Millisecond)
+	time.Sleep(settle + time.Millisecond)
 	w.k.Quiesce()
 	w.check("final")
 }
